@@ -428,7 +428,9 @@ package url
 //@ func (*path).stripTrailingSpacesIfOpaque
 //@   requires p != nil && (p.opaque ==> len(p.p) >= 1)
 //@   modifies p.p[..]
-//@   ensures len(p.p) == old(len(p.p))
+//@   ensures len(p.p) == old(len(p.p)) && p.p == old(p.p) && p.opaque == old(p.opaque)
+//@   ensures !p.opaque ==> (forall k int :: 0 <= k && k < len(p.p) ==> p.p[k] == old(p.p[k]))   [C05]
+//@   ensures p.opaque ==> (p.p[0] == old(p.p[0])[0:specTrimRHi(old(p.p[0]), " ")] && (forall k int :: 1 <= k && k < len(p.p) ==> p.p[k] == old(p.p[k])))   [C05,C03]
 //@ func (*path).clone
 //@   ensures p == nil ==> result == nil
 //@   ensures p != nil ==> result != nil && fresh(result) && result.opaque == p.opaque && len(result.p) == len(p.p)   [C13]
@@ -535,13 +537,13 @@ package url
 
 //@ func cloneStringPointer
 //@   ensures s == nil ==> result == nil
-//@   ensures s != nil ==> result != nil && fresh(result) && *result == *s   [C13]
+//@   ensures s != nil ==> result != nil && fresh(result) && *result == *s   [C13,C14]
 
 //@ func (*SearchParams).Clone
 //@   requires spOK(s)
-//@   ensures result != nil && fresh(result) && fresh(result.params) && result.url == s.url && len(result.params) == len(s.params)   [C13]
+//@   ensures result != nil && fresh(result) && fresh(result.params) && result.url == s.url && len(result.params) == len(s.params)   [C13,C14]
 //@   ensures forall k int :: 0 <= k && k < len(s.params) ==> (result.params[k] != nil && fresh(result.params[k])
-//@           && result.params[k].Name == s.params[k].Name && result.params[k].Value == s.params[k].Value)   [C13]
+//@           && result.params[k].Name == s.params[k].Name && result.params[k].Value == s.params[k].Value)   [C13,C14]
 //@   loop 1 modifies sp.params[..]
 //@   loop 1 invariant sp != nil && fresh(sp) && fresh(sp.params) && sp.url == s.url && len(sp.params) == len(s.params) && sp.params != nil
 //@   loop 1 invariant forall k int :: 0 <= k && k < $i ==> (sp.params[k] != nil && freshL(sp.params[k])
@@ -549,18 +551,18 @@ package url
 
 //@ func (*Url).Clone
 //@   requires wf(u)
-//@   ensures result != nil && fresh(result) && wf(result)   [C13]
-//@   ensures result.path != u.path && fresh(result.path) && (u.path.p != nil ==> fresh(result.path.p)) && (u.path.p == nil ==> result.path.p == nil)   [C13]
-//@   ensures (u.host == nil) == (result.host == nil) && (u.host != nil ==> fresh(result.host) && *result.host == *u.host)   [C13]
-//@   ensures (u.port == nil) == (result.port == nil) && (u.port != nil ==> fresh(result.port) && *result.port == *u.port)   [C13]
-//@   ensures (u.query == nil) == (result.query == nil) && (u.query != nil ==> fresh(result.query) && *result.query == *u.query)   [C13]
-//@   ensures (u.fragment == nil) == (result.fragment == nil) && (u.fragment != nil ==> fresh(result.fragment) && *result.fragment == *u.fragment)   [C13]
+//@   ensures result != nil && fresh(result) && wf(result)   [C13,C14]
+//@   ensures result.path != u.path && fresh(result.path) && (u.path.p != nil ==> fresh(result.path.p)) && (u.path.p == nil ==> result.path.p == nil)   [C13,C14]
+//@   ensures (u.host == nil) == (result.host == nil) && (u.host != nil ==> fresh(result.host) && *result.host == *u.host)   [C13,C14]
+//@   ensures (u.port == nil) == (result.port == nil) && (u.port != nil ==> fresh(result.port) && *result.port == *u.port)   [C13,C14]
+//@   ensures (u.query == nil) == (result.query == nil) && (u.query != nil ==> fresh(result.query) && *result.query == *u.query)   [C13,C14]
+//@   ensures (u.fragment == nil) == (result.fragment == nil) && (u.fragment != nil ==> fresh(result.fragment) && *result.fragment == *u.fragment)   [C13,C14]
 //@   ensures result.scheme == u.scheme && result.username == u.username && result.password == u.password
-//@           && result.decodedPort == u.decodedPort && result.parser == u.parser && result.isIPv4 == u.isIPv4 && result.isIPv6 == u.isIPv6   [C13]
+//@           && result.decodedPort == u.decodedPort && result.parser == u.parser && result.isIPv4 == u.isIPv4 && result.isIPv6 == u.isIPv6   [C13,C14]
 //@   ensures result.path.opaque == u.path.opaque && len(result.path.p) == len(u.path.p)
-//@           && (forall k int :: 0 <= k && k < len(u.path.p) ==> result.path.p[k] == u.path.p[k])   [C13]
+//@           && (forall k int :: 0 <= k && k < len(u.path.p) ==> result.path.p[k] == u.path.p[k])   [C13,C14]
 //@   ensures (u.searchParams == nil) == (result.searchParams == nil)
-//@           && (u.searchParams != nil ==> fresh(result.searchParams) && result.searchParams.url == result)   [C13]
+//@           && (u.searchParams != nil ==> fresh(result.searchParams) && result.searchParams.url == result)   [C13,C14]
 
 // ---------------------------------------------------------------------------------------------------------------
 // parser.go: BasicParser (DESIGN section 4). Layer L1 (safety, termination) and L2 (record invariant, frames).
@@ -583,9 +585,9 @@ package url
 //@   ensures (url == nil && result1 == nil) ==> (result0 != nil && fresh(result0) && wf(result0))   [C02,C04]
 //@   ensures url != nil ==> wf(url)   [C02,C04]
 //@   ensures url != nil ==> (result0 == url || result0 == nil)
-//@   ensures (url == nil && result1 == nil) ==> allFresh(result0)   [C13]
+//@   ensures (url == nil && result1 == nil) ==> allFresh(result0)   [C13,C14]
 //@   ensures url != nil ==> keptArrays(url)
-//@   ensures (url != nil && old(shapeP(url))) ==> shapeP(url)   [C04 shape-preserved-by-setters]
+//@   ensures (url != nil && old(shapeP(url))) ==> shapeP(url)   [C04,C05 shape-preserved-by-setters]
 //@   ensures (url != nil && stateOverride == StateFragment) ==> sameButFragment(url)   [C05]
 //@   ensures (url != nil && stateOverride == StateQuery) ==> sameButQuery(url)   [C05]
 //@   ensures (url != nil && stateOverride == StatePort) ==> sameButPort(url)   [C05]
@@ -639,7 +641,7 @@ package url
 //@   loop 1 invariant url.validationErrors == nil || fresh(url.validationErrors) || (old(url) != nil && arr(url.validationErrors) == old(arr(url.validationErrors)))
 //@   loop 1 invariant arr(url.validationErrors) == pre(arr(url.validationErrors)) || freshL(url.validationErrors)
 //@   loop 1 invariant arr(url.path.p) == pre(arr(url.path.p)) || freshL(url.path.p) || (base != nil && arr(url.path.p) == pre(arr(base.path.p)))
-//@   loop 1 invariant state == StatePort ==> (forall k int :: 0 <= k && k < len(bufv(buffer)) ==> specIsDigit(bufv(buffer)[k]))
+//@   loop 1 invariant state == StatePort ==> specAllDigits(bufv(buffer))
 //@   loop 1 invariant wfPort(url)
 //@   loop 1 invariant wfSP(url)
 //@   loop 1 invariant wfDistinct(url)
@@ -736,39 +738,39 @@ package url
 //@   requires wf(u)
 //@   modifies u.*, u.path.*, u.path.p[..], u.validationErrors[..]
 //@   ensures wf(u)   [C02,C04]
-//@   ensures old(shapeP(u)) ==> shapeP(u)   [C04 shape-preserved-by-setters]
+//@   ensures old(shapeP(u)) ==> shapeP(u)   [C04,C05 shape-preserved-by-setters]
 //@   ensures keptArrays(u)
 //@ func (*Url).SetUsername
 //@   requires wf(u)
 //@   modifies u.username
 //@   ensures wf(u)   [C02,C04]
-//@   ensures old(shapeP(u)) ==> shapeP(u)   [C04 shape-preserved-by-setters]
+//@   ensures old(shapeP(u)) ==> shapeP(u)   [C04,C05 shape-preserved-by-setters]
 //@   ensures (u.host == nil || *u.host == "" || u.scheme == "file") ==> u.username == old(u.username)   [C05]
 //@ func (*Url).SetPassword
 //@   requires wf(u)
 //@   modifies u.password
 //@   ensures wf(u)   [C02,C04]
-//@   ensures old(shapeP(u)) ==> shapeP(u)   [C04 shape-preserved-by-setters]
+//@   ensures old(shapeP(u)) ==> shapeP(u)   [C04,C05 shape-preserved-by-setters]
 //@   ensures (u.host == nil || *u.host == "" || u.scheme == "file") ==> u.password == old(u.password)   [C05]
 //@ func (*Url).SetHost
 //@   requires wf(u)
 //@   modifies u.*, u.path.*, u.path.p[..], u.validationErrors[..]
 //@   ensures wf(u)   [C02,C04]
-//@   ensures old(shapeP(u)) ==> shapeP(u)   [C04 shape-preserved-by-setters]
+//@   ensures old(shapeP(u)) ==> shapeP(u)   [C04,C05 shape-preserved-by-setters]
 //@   ensures keptArrays(u)
 //@   ensures old(u.path.opaque) ==> sameUrl(u)   [C05]
 //@ func (*Url).SetHostname
 //@   requires wf(u)
 //@   modifies u.*, u.path.*, u.path.p[..], u.validationErrors[..]
 //@   ensures wf(u)   [C02,C04]
-//@   ensures old(shapeP(u)) ==> shapeP(u)   [C04 shape-preserved-by-setters]
+//@   ensures old(shapeP(u)) ==> shapeP(u)   [C04,C05 shape-preserved-by-setters]
 //@   ensures keptArrays(u)
 //@   ensures old(u.path.opaque) ==> sameUrl(u)   [C05]
 //@ func (*Url).SetPort
 //@   requires wf(u)
 //@   modifies u.*, u.path.*, u.path.p[..], u.validationErrors[..]
 //@   ensures wf(u)   [C02,C04]
-//@   ensures old(shapeP(u)) ==> shapeP(u)   [C04 shape-preserved-by-setters]
+//@   ensures old(shapeP(u)) ==> shapeP(u)   [C04,C05 shape-preserved-by-setters]
 //@   ensures keptArrays(u)
 //@   ensures (old(u.host) == nil || old(*u.host) == "" || old(u.scheme) == "file") ==> sameUrl(u)   [C05]
 //@   ensures (!(old(u.host) == nil || old(*u.host) == "" || old(u.scheme) == "file") && port == "") ==> (u.port == nil && u.decodedPort == 0)   [C05]
@@ -777,24 +779,27 @@ package url
 //@   requires wf(u)
 //@   modifies u.*, u.path.*, u.path.p[..], u.validationErrors[..]
 //@   ensures wf(u)   [C02,C04]
-//@   ensures old(shapeP(u)) ==> shapeP(u)   [C04 shape-preserved-by-setters]
+//@   ensures old(shapeP(u)) ==> shapeP(u)   [C04,C05 shape-preserved-by-setters]
 //@   ensures keptArrays(u)
 //@   ensures old(u.path.opaque) ==> sameUrl(u)   [C05]
 //@ func (*Url).SetHash
 //@   requires wf(u)
 //@   modifies u.*, u.path.*, u.path.p[..], u.validationErrors[..]
 //@   ensures wf(u)   [C02,C04]
-//@   ensures old(shapeP(u)) ==> shapeP(u)   [C04 shape-preserved-by-setters]
+//@   ensures old(shapeP(u)) ==> shapeP(u)   [C04,C05 shape-preserved-by-setters]
 //@   ensures keptArrays(u)
 //@   ensures fragment == "" ==> u.fragment == nil   [C05]
-//@   ensures sameButFragment(u)   [C05]
+//@   ensures (fragment != "" || u.query != nil || !u.path.opaque) ==> sameButFragment(u)   [C05]
+//@   ensures (fragment == "" && u.query == nil && u.path.opaque) ==> u.path.p[0] == old(u.path.p[0])[0:specTrimRHi(old(u.path.p[0]), " ")]   [C05,C03 strip-only-when-both-null]
 //@ func (*Url).SetSearch
 //@   requires wf(u)
 //@   modifies u.*, u.path.*, u.path.p[..], u.validationErrors[..], u.searchParams.params, u.searchParams.params[..]
 //@   ensures wf(u)   [C02,C04]
-//@   ensures old(shapeP(u)) ==> shapeP(u)   [C04 shape-preserved-by-setters]
+//@   ensures old(shapeP(u)) ==> shapeP(u)   [C04,C05 shape-preserved-by-setters]
 //@   ensures keptArrays(u)
 //@   ensures query == "" ==> u.query == nil   [C05,C12]
+//@   ensures (query != "" || u.fragment != nil || !u.path.opaque) ==> pathContentSame(u)   [C05 strip-only-when-both-null]
+//@   ensures (query == "" && u.fragment == nil && u.path.opaque) ==> u.path.p[0] == old(u.path.p[0])[0:specTrimRHi(old(u.path.p[0]), " ")]   [C05,C03 strip-only-when-both-null]
 //@   ensures u.scheme == old(u.scheme) && u.username == old(u.username) && u.password == old(u.password) && u.host == old(u.host)
 //@           && u.port == old(u.port) && u.decodedPort == old(u.decodedPort) && u.path == old(u.path) && u.fragment == old(u.fragment)   [C05]
 //@   ensures query == "" && old(u.searchParams) != nil ==> (u.searchParams == old(u.searchParams) && len(u.searchParams.params) == 0)   [C12]
@@ -817,14 +822,14 @@ package url
 //@   ensures wf(u)
 //@ func (*Url).Parse
 //@   requires wf(u)
-//@   ensures result1 == nil ==> (result0 != nil && fresh(result0) && wf(result0) && allFresh(result0))   [C02,C13]
+//@   ensures result1 == nil ==> (result0 != nil && fresh(result0) && wf(result0) && allFresh(result0))   [C02,C13,C14]
 
 //@ func (*parser).Parse
 //@   requires okOpts(p)
-//@   ensures result1 == nil ==> (result0 != nil && fresh(result0) && wf(result0) && allFresh(result0))   [C02,C13]
+//@   ensures result1 == nil ==> (result0 != nil && fresh(result0) && wf(result0) && allFresh(result0))   [C02,C13,C14]
 //@ func (*parser).ParseRef
 //@   requires okOpts(p)
-//@   ensures result1 == nil ==> (result0 != nil && fresh(result0) && wf(result0) && allFresh(result0))   [C02,C13]
+//@   ensures result1 == nil ==> (result0 != nil && fresh(result0) && wf(result0) && allFresh(result0))   [C02,C13,C14]
 //@ func (*parser).NewUrl
 //@   requires p != nil
 //@   ensures result != nil && fresh(result) && result.parser == p && result.path != nil
@@ -928,9 +933,9 @@ package url
 //@ global url.var.idnaProfile: idnaProfile != nil
 
 //@ func Parse
-//@   ensures result1 == nil ==> (result0 != nil && fresh(result0) && wf(result0) && allFresh(result0))   [C02,C13]
+//@   ensures result1 == nil ==> (result0 != nil && fresh(result0) && wf(result0) && allFresh(result0))   [C02,C13,C14]
 //@ func ParseRef
-//@   ensures result1 == nil ==> (result0 != nil && fresh(result0) && wf(result0) && allFresh(result0))   [C02,C13]
+//@   ensures result1 == nil ==> (result0 != nil && fresh(result0) && wf(result0) && allFresh(result0))   [C02,C13,C14]
 
 // ---------------------------------------------------------------------------------------------------------------
 // hostparser.go / parser.go: host parsing and the string codecs
